@@ -864,7 +864,19 @@ public:
 	NiBlockRef() {}
 	NiBlockRef(const uint32_t id) { NiRef::index = id; }
 
+#ifdef NIFLY_VERIF
+	void Sync(NiStreamReversible& stream) {
+		const bool writing = stream.GetMode() == NiStreamReversible::Mode::Writing;
+		const std::streamsize writeOffset = writing ? stream.asWrite()->GetBlockSize() : -1;
+		if (!writing)
+			verif::SetHint(verif::Hint::BlockRef, sizeof(base::index));
+		stream.Sync(reinterpret_cast<char*>(&base::index), sizeof(base::index));
+		if (verif::hooks && verif::hooks->onBlockRef)
+			verif::hooks->onBlockRef(verif::hooks->ctx, this, writing, writeOffset);
+	}
+#else
 	void Sync(NiStreamReversible& stream) { stream.Sync(base::index); }
+#endif
 };
 
 template<typename T>
